@@ -292,7 +292,7 @@ func (r *Run) writeEvidence(nviol, nundec, nknown int) {
 		r.Notes = []string{}
 	}
 	cov := map[string]interface{}{
-		"trusted_base": []string{"go/packages + go/types (go1.23.5)", "golang.org/x/tools v0.29.0 (go/cfg, typeutil)", "frozen exception tables in /verif/checker/rules"},
+		"trusted_base":           []string{"go/packages + go/types (go1.23.5)", "golang.org/x/tools v0.29.0 (go/cfg, typeutil)", "frozen exception tables in /verif/checker/rules"},
 		"explanation":            r.Explanation,
 		"obligations":            total,
 		"discharged":             total - nviol - nundec - nknown,
